@@ -206,7 +206,7 @@ def parseEv (ws : List String) : Option Ev :=
 def monitorsFor (names : List String) (settled : Bool) : List (String × (Monitor.Trace → Bool)) :=
   let all : List (String × (Monitor.Trace → Bool)) :=
     [("C01", Monitor.C01.ok), ("C02", Monitor.C02.ok), ("C03", if settled then Monitor.C03.okSettled else Monitor.C03.ok), ("C04", Monitor.C04.ok),
-     ("C05", Monitor.C05.ok), ("C06", Monitor.C06.ok),
+     ("C05", Monitor.C05.ok), ("C06", if settled then Monitor.C06.okSettled else Monitor.C06.ok),
      ("C07", if settled then Monitor.C07.okSettled else Monitor.C07.ok),
      ("C08", Monitor.C08.ok), ("C09", Monitor.C09.ok), ("C10", Monitor.C10.ok), ("C11", Monitor.C11.ok),
      ("C13", Monitor.C13.ok), ("C19", Monitor.C19.ok)]
